@@ -5,6 +5,7 @@ import (
 	"math/big"
 	"os"
 	"sort"
+	"strings"
 )
 
 // Directed is a hand-written scenario aimed at one rule of the specification.
@@ -395,6 +396,40 @@ var Scenarios = []Directed{
 		s.End()
 		s.Blocks(6, allHdr)
 	}},
+	{"query_in_flight", []string{"C19", "C06"}, fam(0), func(s *Script) {
+		s.Blocks(3, allHdr)
+		kr := s.R.KR
+		ask := func() {
+			for _, h := range []int64{0, s.H - 1, s.H, s.H + 1, 1} {
+				s.Query("account", kr.Addr(4), h)
+				s.Query("account", kr.Addr(5), h)
+				s.Query("delegatee", kr.Addr(1), h)
+				s.Query("reward", kr.Addr(1), h)
+				s.Query("stakes/total_power", nil, h)
+				s.Query("gov_params", nil, h)
+				s.Query("stakes", kr.Addr(4), h)
+			}
+		}
+		s.Begin(allHdr)
+		ask()
+		s.Transfer(4, 5, "3e18")
+		ask()
+		s.Stake(4, 1, "2e18")
+		ask()
+		s.Withdraw(1, "1")
+		ask()
+		s.do(Op{Kind: "end"})
+		ask()
+		s.Cons.ApplyUpdates(s.H, s.R.LastUpdates)
+		s.do(Op{Kind: "commit"})
+		ask()
+		s.Restart()
+		ask()
+		s.Blocks(2, allHdr)
+		ask()
+	}},
+	{"mutation_matrix", []string{"C03"}, fam(0), func(s *Script) { MutationMatrix(s, false) }},
+	{"mutation_matrix_full", []string{"C03"}, fam(0), func(s *Script) { MutationMatrix(s, true) }},
 	{"setdoc_and_accounts", []string{"C05", "C19", "C04"}, fam(0), func(s *Script) {
 		s.Blocks(2, allHdr)
 		s.Begin(allHdr)
@@ -425,7 +460,11 @@ func RunDirected(names []string, seed int64, tmp string, emit func(J), evm bool)
 	out := map[string]*Scenario{}
 	var list []Directed
 	if len(names) == 0 {
-		list = Scenarios
+		for _, d := range Scenarios {
+			if !strings.HasPrefix(d.Name, "mutation_matrix") {
+				list = append(list, d)
+			}
+		}
 	} else {
 		for _, n := range names {
 			d := ScenarioByName(n)
